@@ -121,6 +121,7 @@ func (env *Env) noteLoad(v EV) EV {
 	switch v.Typ.Underlying().(type) {
 	case *types.Pointer, *types.Map, *types.Slice:
 		env.facts = append(env.facts, env.fe.typeFacts(env.st, v.T, v.Typ))
+		env.facts = append(env.facts, env.fe.versionFact(v.T, v.Typ))
 	}
 	return v
 }
@@ -137,8 +138,8 @@ func (env *Env) rvalue(v EV) EV {
 		return EV{T: fmt.Sprintf("(select %s %s)", h, v.T), Sort: ghostSort(g), Typ: ghostGoType(g)}
 	}
 	fe := env.fe
-	fe.loadTop = ""
-	defer func() { fe.loadTop = "" }()
+	fe.loadTop, fe.loadAddr = "", ""
+	defer func() { fe.loadTop, fe.loadAddr = "", "" }()
 	if v.Leaf != nil {
 		return env.noteLoad(EV{T: fe.loadField(st, v.T, v.Leaf.owner, v.Leaf.field), Typ: v.Typ})
 	}
@@ -235,6 +236,10 @@ func (env *Env) ident(name string) EV {
 	}
 	if g, ok := env.st.ghost[name]; ok {
 		return EV{T: g, Typ: types.Typ[types.Int]}
+	}
+	if g, ok := fe.eng.cs.Ghosts["$global."+name]; ok {
+		// global ghost variable: a ghost field of the (one) globals pseudo-object
+		return EV{T: "hv_globals", Typ: ghostGoType(g), Sort: ghostSort(g), Addr: true, Leaf: &leafRef{ghost: g}}
 	}
 	// package-level constant
 	if env.pkg != nil {
